@@ -26,6 +26,9 @@ import (
 // (they keep the random source the library gave them): a list used by one goroutine is a sorted map whatever other lists
 // of the process are doing.
 
+// Op 20 o (SkipListWithCmp over int keys, kinds 4-6): Init with ANOTHER comparator (0 ascending, 1 descending, 2 composite
+// (k%4, k)) on the key representation of the kind; the list must from then on be the sorted map of the new order.
+
 // ---- scripted Source64
 type c02Script struct {
 	ws []uint64
@@ -186,6 +189,8 @@ type c02Cmp[K any] struct {
 	back func(K) int64
 	src  *c02Script
 	own  bool
+	// optional: the comparator of order o (0 ascending, 1 descending, 2 composite) on this list's key representation (op 20)
+	cmps func(o int64) func(K, K) int
 	// optional: the representative of a key handed to the QUERYING calls (Get, GetNode, Remove, RangeWithStart/Range): equal
 	// to to(k) under the comparator but a different value.  Keys the list hands out must be the stored ones.
 	probe func(int64) K
@@ -382,6 +387,12 @@ func (p *c02Cmp[K]) Do(code, a, b, c int64, out []int64) []int64 {
 		if !p.own {
 			c02Inject(s, p.src)
 		}
+	case 20:
+		p.cmp = p.cmps(a)
+		s.Init(p.cmp)
+		if !p.own {
+			c02Inject(s, p.src)
+		}
 	case 1:
 		s.Set(p.to(a), b)
 	case 2:
@@ -471,6 +482,23 @@ func c02Sign(x int64) int {
 	return 0
 }
 
+// the comparator of order o on the keys k = key(x) (0 ascending, 1 descending with magnitudes other than 1, 2 composite (k%4, k))
+func c02Order(o int64, key func(int64) int64) func(a, b int64) int {
+	switch o {
+	case 0:
+		return func(a, b int64) int { return c02Sign(key(a) - key(b)) }
+	case 1:
+		return func(a, b int64) int { return int(key(b) - key(a)) }
+	}
+	return func(a, b int64) int {
+		a, b = key(a), key(b)
+		if a%4 != b%4 {
+			return c02Sign(a%4 - b%4)
+		}
+		return c02Sign(a - b)
+	}
+}
+
 // c02Parse splits a case; ok=false when it is malformed
 func c02Parse(in []int64) (kind int64, ws []uint64, ops []int64, ok bool) {
 	if len(in) < 2 || in[0] < 0 || in[0] > 7 || in[0] == 1 || in[0] == 2 || in[1] < 0 || int64(len(in)) < 2+2*in[1] {
@@ -493,7 +521,10 @@ func c02Impl(in []int64) []int64 {
 		return []int64{BADCASE}
 	}
 	for i := 0; i+3 < len(ops); i += 4 {
-		if ops[i] < 0 || ops[i] > 19 || (ops[i] == 19 && i > 0) {
+		if ops[i] < 0 || ops[i] > 20 || (ops[i] == 19 && i > 0) {
+			return []int64{BADCASE}
+		}
+		if ops[i] == 20 && (kind < 4 || kind > 6 || ops[i+1] < 0 || ops[i+1] > 2 || ops[0] == 19) {
 			return []int64{BADCASE}
 		}
 	}
@@ -591,7 +622,8 @@ func c02Make(kind int64, ws []uint64, ops []int64, own bool) c02List {
 		// keys 2^31 apart, comparator `a - b` (a legal total order on these keys; the differences are multiples of 2^31):
 		// a comparator result narrowed to 32 bits flips its sign or becomes 0
 		l = &c02Cmp[int64]{s: new(listz.SkipListWithCmp[int64, int64]), to: func(x int64) int64 { return x << 31 }, back: func(k int64) int64 { return k >> 31 }, src: src, own: own,
-			cmp: func(a, b int64) int { return int(a - b) }}
+			cmps: func(o int64) func(a, b int64) int { return c02Order(o, func(x int64) int64 { return x >> 31 }) },
+			cmp:  func(a, b int64) int { return int(a - b) }}
 	case 5:
 		rev := func(a, b int64) int { return int(b - a) } // reversed; magnitude other than 1 on purpose
 		if (len(ws)+len(ops)/4)%2 == 1 {
@@ -606,13 +638,15 @@ func c02Make(kind int64, ws []uint64, ops []int64, own bool) c02List {
 				return 0
 			}
 		}
-		l = &c02Cmp[int64]{s: new(listz.SkipListWithCmp[int64, int64]), to: ident, back: ident, src: src, cmp: rev, own: own}
+		l = &c02Cmp[int64]{s: new(listz.SkipListWithCmp[int64, int64]), to: ident, back: ident, src: src, cmp: rev, own: own,
+			cmps: func(o int64) func(a, b int64) int { return c02Order(o, ident) }}
 	case 6:
 		// keys are stored as 2k and asked for as 2k+1; the comparator looks at k only (values that are equal under the
 		// comparator but distinguishable: case-insensitive strings, records ordered by an id).  An odd key coming out of the
 		// list is a probe handed back instead of the stored key: token -1000034.
 		l = &c02Cmp[int64]{s: new(listz.SkipListWithCmp[int64, int64]), src: src, own: own,
-			to: func(k int64) int64 { return 2 * k }, probe: func(k int64) int64 { return 2*k + 1 },
+			cmps: func(o int64) func(a, b int64) int { return c02Order(o, func(x int64) int64 { return x >> 1 }) },
+			to:   func(k int64) int64 { return 2 * k }, probe: func(k int64) int64 { return 2*k + 1 },
 			back: func(x int64) int64 {
 				if x&1 != 0 {
 					return -1000034
@@ -678,7 +712,7 @@ func c02ValueTypesOK() (ok bool) {
 }
 
 var c02Names = []string{"Init", "Set", "SetNx", "SetX", "Get", "GetNode", "NodeSetValue", "Len", "Head", "HeadNextWalk", "Remove", "Clear",
-	"Range", "All", "Keys", "Values", "RangeWithStart", "RangeWithRange", "Shape", "IndependentLists"}
+	"Range", "All", "Keys", "Values", "RangeWithStart", "RangeWithRange", "Shape", "IndependentLists", "InitWithCmp"}
 var c02Kinds = map[int64]string{0: "SkipList[int]", 3: "SkipList[string]", 4: "SkipListWithCmp[int] ascending, keys scaled by 2^31, cmp = a-b", 5: "SkipListWithCmp[int] reversed (cmp = b-a, or MinInt/0/MaxInt when words+ops is odd)",
 	6: "SkipListWithCmp[int] composite(k%4,k), keys stored as 2k and queried as 2k+1 (equal under the comparator)", 7: "SkipListWithCmp[string]"}
 
@@ -704,6 +738,12 @@ func c02Describe(in []int64) string {
 			continue
 		}
 		switch c {
+		case 20:
+			if o := ops[i+1]; o >= 0 && o <= 2 {
+				s += " Init(" + []string{"ascending", "descending", "composite (k%4,k)"}[o] + " comparator)"
+			} else {
+				s += " Init(?)"
+			}
 		case 19:
 			s += fmt.Sprintf(" [%d independent lists of the library's own making (random source untouched), each driven by its own goroutine, all at once; on each of them %d times in a row:]", ops[i+1]+1, ops[i+2])
 		case 1, 2, 3, 6, 17:
@@ -736,7 +776,7 @@ func c02Valid(in []int64) bool {
 	}
 	for i := 0; i+3 < len(ops); i += 4 {
 		switch ops[i] {
-		case 0:
+		case 0, 20:
 			return true
 		case 1, 2:
 			return false
@@ -834,9 +874,9 @@ func (b *c02B) op(code, a, x, c int64) {
 	b.ops = append(b.ops, code, a, x, c)
 	b.codes[code] = true
 	switch code {
-	case 0, 11:
+	case 0, 11, 20:
 		b.mem = map[int64]bool{}
-		if code == 0 {
+		if code != 11 {
 			b.inits = true
 		} else {
 			b.clrd = true
@@ -1313,6 +1353,76 @@ func c02Gen(c *Ctx) {
 		t.Try("random-"+c02Kinds[kind], b.in(), b.ins >= 2 && len(b.codes) >= 3)
 	})
 
+	// ---- 3b. one list object initialised again with ANOTHER comparator (op 20): ascending / descending / composite toggled
+	// one to four times in a case; after every Init the list must be the sorted map of the comparator given last
+	c.Each(c.N(6000, 80000), func(i int, t *T) {
+		r := t.R
+		kind := []int64{4, 5, 6}[i%3]
+		b := c02New(kind)
+		cur := kind - 4
+		nkeys := int64(3 + r.Intn(8))
+		key := func() int64 { return r.Int63n(nkeys) }
+		height := func() int {
+			h := 1
+			for h < 32 && r.Intn(2) == 0 {
+				h++
+			}
+			return h
+		}
+		if r.Intn(3) > 0 {
+			b.op(0, 0, 0, 0)
+		}
+		nsw := 1 + r.Intn(4)
+		for sw := 0; sw <= nsw; sw++ {
+			if sw > 0 || !b.inits {
+				o := int64(r.Intn(3))
+				if o == cur && r.Intn(4) > 0 {
+					o = (o + 1 + int64(r.Intn(2))) % 3
+				}
+				cur = o
+				b.op(20, o, 0, 0)
+			}
+			for j := 2 + r.Intn(9); j > 0; j-- {
+				switch x := r.Intn(20); {
+				case x < 8:
+					b.set(int64(1+r.Intn(4)/3), key(), r.Int63n(1000), height(), r)
+				case x < 10:
+					b.op(10, key(), 0, 0)
+				case x < 11:
+					b.set(3, key(), r.Int63n(1000), 1, r)
+				case x < 12:
+					b.op(4+int64(r.Intn(2)), key(), 0, 0)
+				case x < 13:
+					b.op(11, 0, 0, 0)
+				case x < 14:
+					b.op(0, 0, 0, 0) // Init with the comparator in force
+				default:
+					k := key()
+					switch r.Intn(6) {
+					case 0:
+						b.op(14, 0, 0, 0)
+					case 1:
+						b.op(12+int64(r.Intn(2)), int64(r.Intn(4)), 0, 0)
+					case 2:
+						b.op(16, k, int64(r.Intn(4)), 0)
+					case 3:
+						b.op(17, k, key(), int64(r.Intn(3)))
+					case 4:
+						b.op(8+int64(r.Intn(2)), 0, 0, 0)
+					default:
+						b.op(shape, 0, 0, 0)
+					}
+				}
+			}
+			b.op(14, 0, 0, 0)
+		}
+		b.observe()
+		if !c02HookOK {
+			b.ops[len(b.ops)-8] = 7
+		}
+		t.Try("init-with-another-comparator-"+c02Kinds[kind], b.in(), b.ins >= 2 && len(b.codes) >= 4)
+	})
+
 	// ---- 4. independent lists (op 19): g+1 lists that the harness does not touch, each driven by a goroutine of its own, all
 	// at once, the round R times in a row on each.  What one list answers must not depend on other lists being in use
 	// (a generator, an update buffer, a node pool shared by the lists of the package).  The rounds are random
@@ -1359,6 +1469,7 @@ func init() {
 		Rule: "zero-value matrix (every method alone, after Clear, in pairs) for SkipList[int|string] and SkipListWithCmp under ascending/reversed/composite/string comparators; " +
 			"exhaustive: every sequence up to the tier's length over Set(k, raw height h) k in {1,2,3} h in {1,2,3,32}, Remove k, Clear, SetX, SetNx, RangeWithStart, Init; " +
 			"random: 8-70 operations, raw random words scripted (geometric, all-tall, tall-then-flat, extremes, grow-then-shrink), start keys next to removed keys, callbacks stopping after 0-4 calls. " +
+			"re-Init with another comparator: 1-4 times per case Init(ascending|descending|composite) on a SkipListWithCmp[int] of kinds 4-6, 2-10 writes and ordered reads after each, Keys before the next. " +
 			"independent lists: the rest of the sequence repeated R times on each of g+1 lists that keep the library's own random source, one goroutine per list, all at once (short rounds of 4-40 operations, long rounds of 750-900 operations with 2.5*10^5..4*10^5 insertions per list; non-trivial = 2 insertions per round and 4 operations, long: 10^5 insertions per list). " +
 			"A SkipListWithCmp is never written before Init (it has no comparator). distinct = distinct case; non-trivial = at least 2 insertions and 3 different operations (exhaustive: length >= 2, an insertion, 4 different operations)"})
 }
